@@ -171,13 +171,17 @@ func cmdFunc(args []string) int {
 		}
 		fmt.Printf("%s %-70s %-8s %-10s %5dms %s  %s\n", mark, o.Name, o.Status, o.Backend, o.Ms, o.Pos, o.Desc)
 		if !ok && o.Status == "sat" {
-			m := parseModel(o.Output)
+			m := namedModel(o, parseModel(o.Output))
 			var ks []string
 			for k := range m {
 				ks = append(ks, k)
 			}
 			sort.Strings(ks)
-			for _, k := range ks {
+			for i, k := range ks {
+				if i >= 14 {
+					fmt.Printf("       … %d more\n", len(ks)-i)
+					break
+				}
 				fmt.Printf("       %s = %s\n", k, m[k])
 			}
 		}
